@@ -2,7 +2,7 @@
   Line protocol for the Deltas / Stack model, run at `Rat` (exact).
 
     deltas <num_deltas> <context_window> <target_axis> <concatenate 0|1> <pad> <cast id|trunc> <axis> <shape> <data>
-    stack  <num_vectors> <time_axis> <pad|none> <axis> <shape> <data>
+    stack  <num_vectors> <time_axis> <pad|none> <in_place 0|1> <axis> <shape> <data>
 
   <pad>   : constant:<l>:<r> | edge | reflect | symmetric | wrap | maximum | minimum | mean | median
             | linear_ramp:<l>:<r>          (constants are integers)
@@ -71,15 +71,16 @@ def handleDeltas (args : List String) : Option String :=
 
 def handleStack (args : List String) : Option String :=
   match args with
-  | [n, ta, pad, axis, shape, data] => do
+  | [n, ta, pad, ip, axis, shape, data] => do
     let n ← n.toInt?
     let ta ← ta.toInt?
+    let ip ← (match ip with | "0" => some false | "1" => some true | _ => none)
     let pad ← (if pad == "none" then some none else (parsePad pad).map some)
     let axis ← axis.toInt?
     let x ← parseTensor shape data
     match Stack.new n ta pad with
     | .error e => some ("err:" ++ e.name)
-    | .ok c => some (showResult (c.apply x axis))
+    | .ok c => some (showResult (c.apply x axis ip))
   | _ => none
 
 def dispatch (line : String) : String :=
